@@ -570,7 +570,8 @@ def commandObs (st : St) (c : Cmd) : St × Verdict :=
     | some r =>
       -- the release that finds the mapping already gone (`ref sabotage`) reports the failed munmap,
       -- and still closes the file
-      let r' := fun (op : RefOp) => iterN (fun x => x.step op) st.parMul r
+      -- `n=<k>`: the operation repeated k times by one caller
+      let r' := fun (op : RefOp) => iterN (fun x => x.step op) (st.parMul * c.nat "n" 1) r
       let releasing := fun (op : RefOp) => (r' op).releases > r.releases
       let relObs := fun (op : RefOp) =>
         if st.sabotaged.contains name ∧ releasing op then Verdict.pred (fun g => g.startsWith "err") "an error (the mapping was taken away before the release)"
